@@ -58,14 +58,26 @@ mod proofs {
     }
 
     // @harness id=C19 tier=quick unwind=14 timeout=3000 fs=4096
-    // @desc extract_lwe + assemble_lwe on a ciphertext with THREE coefficient moduli at its level: the constant phase coefficient of the re-assembled ciphertext equals coefficient i of the original phase in EVERY RNS component (all residues of c0[i] are gathered, not only the first two), for both indices and every ternary key
-    // @bounds BFV N=2, chain {97,113,193,241}: ciphertext at the first data level {97,113,193}; all ciphertext residues; all ternary keys; i in {0,1}; component symbolic
+    // @desc extract_lwe + assemble_lwe on a ciphertext with THREE coefficient moduli at its level: the constant phase coefficient of the re-assembled ciphertext equals coefficient i of the original phase in EVERY RNS component (all residues of c0[i] are gathered, not only the first two), for every ternary key
+    // @bounds BFV N=2, chain {97,113,193,241}: ciphertext at the first data level {97,113,193}; all ciphertext residues; all ternary keys; index i = 0 (i = 1: harness _i1); component symbolic
     // @funcs Evaluator::extract_lwe, LWECiphertext::assemble_lwe, Evaluator::assemble_lwe, polysmallmod::negacyclic_shift_p
     // @stubs HeContext::get_context_data -> linear search over the literal chain; alloc::sync::Arc::drop_slow -> no-op
     #[kani::proof]
     #[kani::stub(crate::context::HeContext::get_context_data, crate::context::verif_v::get_context_data_stub)]
     #[kani::stub(alloc::sync::Arc::drop_slow, crate::verif_v::arc_drop_slow_noop)]
-    fn c19_extract_assemble_three_primes() {
+    fn c19_extract_assemble_three_primes_i0() { three_primes_case(0) }
+
+    // @harness id=C19 tier=quick unwind=14 timeout=3000 fs=4096
+    // @desc extract_lwe + assemble_lwe on a ciphertext with THREE coefficient moduli at its level: the constant phase coefficient of the re-assembled ciphertext equals coefficient i of the original phase in EVERY RNS component (all residues of c0[i] are gathered, not only the first two), for every ternary key
+    // @bounds BFV N=2, chain {97,113,193,241}: ciphertext at the first data level {97,113,193}; all ciphertext residues; all ternary keys; index i = 1 (i = 0: harness _i0); component symbolic
+    // @funcs Evaluator::extract_lwe, LWECiphertext::assemble_lwe, Evaluator::assemble_lwe, polysmallmod::negacyclic_shift_p
+    // @stubs HeContext::get_context_data -> linear search over the literal chain; alloc::sync::Arc::drop_slow -> no-op
+    #[kani::proof]
+    #[kani::stub(crate::context::HeContext::get_context_data, crate::context::verif_v::get_context_data_stub)]
+    #[kani::stub(alloc::sync::Arc::drop_slow, crate::verif_v::arc_drop_slow_noop)]
+    fn c19_extract_assemble_three_primes_i1() { three_primes_case(1) }
+
+    fn three_primes_case(idx: usize) {
         let ctx = lits::ctx_bfv_n2_4p();
         let ev = mk_evaluator(ctx.clone());
         let pid = *ctx.first_parms_id();
@@ -74,8 +86,7 @@ mod proofs {
         let mut v = [0u64; 12]; let mut k = 0;
         while k < 12 { kani::assume((d[k] as u64) < qs[(k / 2) % 3]); v[k] = d[k] as u64; k += 1; }
         let ct = mk_ciphertext(2, 3, 2, v.to_vec(), pid, 1.0, false, 1);
-        let i: bool = kani::any();
-        let lwe = if i { ev.extract_lwe(&ct, 1) } else { ev.extract_lwe(&ct, 0) };
+        let lwe = ev.extract_lwe(&ct, idx);
         let asm = ev.assemble_lwe(&lwe);
         assert!(asm.size() == 2 && asm.data().len() == 12 && *asm.parms_id() == pid && !asm.is_ntt_form());
         let sk: [u8; 2] = kani::any(); kani::assume(sk[0] < 3 && sk[1] < 3);
@@ -84,7 +95,7 @@ mod proofs {
         let s = [if sk[0] == 2 { q - 1 } else { sk[0] as u64 }, if sk[1] == 2 { q - 1 } else { sk[1] as u64 }];
         // phase coefficients of (c0, c1) under s in Z_q[X]/(X^2+1)
         let ph = |c0: [u64; 2], c1: [u64; 2], k: usize| if k == 0 { (c0[0] + c1[0] * s[0] + (q * q - c1[1] * s[1])) % q } else { (c0[1] + c1[0] * s[1] + c1[1] * s[0]) % q };
-        let want = ph([v[comp * 2], v[comp * 2 + 1]], [v[6 + comp * 2], v[6 + comp * 2 + 1]], if i { 1 } else { 0 });
+        let want = ph([v[comp * 2], v[comp * 2 + 1]], [v[6 + comp * 2], v[6 + comp * 2 + 1]], idx);
         let got = ph([asm.data()[comp * 2], asm.data()[comp * 2 + 1]], [asm.data()[6 + comp * 2], asm.data()[6 + comp * 2 + 1]], 0);
         kani::cover!(comp == 2 && want != 0);
         assert!(got == want);
